@@ -378,6 +378,7 @@ func erased(s string) string {
 var writes = []string{
 	"x[0] = 99", "x[0][0] = 99", "x[1][0] = 99", "x.a = 99", "x.b[0] = 99", "x.zz = 1",
 	"x.value[0] = 99", "delete(x, \"a\")", "splice(x, 0, 1)", "splice(x[0], 0, 1)",
+	"x[0][0][0] = 99", "x.k.j[0] = 99", "x.k.j = 99", "x[0][0] = 98",
 }
 
 func runSingle(c Case) (fails []fail, obs string) {
